@@ -264,7 +264,7 @@ func runC16(t *rapid.T, st *Stats, v *VestWorld, viaHandler bool) {
 		legacy := mintertypes.MinterConfig{StartTime: mp.StartTime}
 		for i, m := range mp.Minters {
 			lm := &mintertypes.LegacyMinter{SequenceId: m.SequenceId, EndTime: m.EndTime}
-			switch mcfg.Periods[i].Kind {
+			switch mcfg.PeriodAt(i).Kind {
 			case "none":
 				lm.Type = "NO_MINTING"
 			case "linear":
@@ -279,7 +279,13 @@ func runC16(t *rapid.T, st *Stats, v *VestWorld, viaHandler bool) {
 		invalidLegacyMinter := !viaHandler && rapid.IntRange(0, 4).Draw(t, "invalidLegacyMinter") == 0
 		if invalidLegacyMinter {
 			e := mp.StartTime.Add(50 * 365 * 24 * time.Hour)
-			legacy.Minters[len(legacy.Minters)-1].EndTime = &e // the last period must be open ended
+			lastIdx := 0
+			for i, lm := range legacy.Minters {
+				if lm.SequenceId > legacy.Minters[lastIdx].SequenceId {
+					lastIdx = i
+				}
+			}
+			legacy.Minters[lastIdx].EndTime = &e // the last period must be open ended
 			classes["invalid_legacy_minter"] = true
 		}
 		ssM.Set(ctx, mintertypes.KeyMintDenom, Denom)
@@ -502,8 +508,8 @@ func runC16(t *rapid.T, st *Stats, v *VestWorld, viaHandler bool) {
 				t.Fatalf("migrated minter parameters do not validate: %v", err)
 			}
 			want := mintertypes.Params{MintDenom: Denom, StartTime: mp.StartTime, Minters: mp.Minters}
-			if string(cdc.MustMarshalJSON(&np)) != string(cdc.MustMarshalJSON(&want)) {
-				t.Fatalf("migrated minter parameters differ from the legacy configuration:\n got  %s\n want %s", cdc.MustMarshalJSON(&np), cdc.MustMarshalJSON(&want))
+			if minterParamsJSON(app, np) != minterParamsJSON(app, want) {
+				t.Fatalf("migrated minter parameters differ from the legacy configuration:\n got  %s\n want %s", minterParamsJSON(app, np), minterParamsJSON(app, want))
 			}
 		}
 		if errD != nil {
